@@ -86,7 +86,7 @@ def dump_df(df, fname, gz=True):
 
     out = _serialize_df(df, gz=False)
 
-    if not fname.endswith('.csv'):
+    if not fname.endswith('.csv') and not fname.endswith('.gz'):
         fname += '.csv'
 
     if gz is True:
